@@ -32,8 +32,38 @@ class Program:
         self.meta = data.get("_meta", {})
         self.adts = data["adts"]
         self.impls = data["impls"]
-        self.fns = {k: Fn(k, v, self) for k, v in data["fns"].items()}
+        self.raw_fns = data["fns"]
+        self.fns_raw = {k: Fn(k, v, self) for k, v in data["fns"].items()}     # bodies exactly as compiled
         self._cg = None
+        self._inl = {}
+        # P.fns holds bodies as compiled (inventory-style rules must see each site once, under its own function); P.one() and
+        # P.views() hand out analysis views with private helpers spliced in (sa/inline.py) for path / shape rules
+        self.fns = self.fns_raw
+
+    def views(self, pred=None):
+        """Analysis views (private helpers spliced in) of the functions satisfying pred, closures excluded."""
+        return [self.inlined(f) for f in self.fns_raw.values() if f.kind != "closure" and (pred is None or pred(f))]
+
+    def inlined(self, f):
+        """Analysis view of f: private helper functions spliced into its body (sa/inline.py). f itself when nothing was inlined."""
+        if f is None:
+            return None
+        if getattr(f, "inlined_from", None) is not None:
+            return f
+        if f.name not in self._inl:
+            from . import inline
+            try:
+                raw, names = inline.inline_raw(self, f.name)
+            except Exception:
+                raw, names = f.raw, []
+            if names:
+                g = Fn(f.name, raw, self)
+                g.inlined_from = list(dict.fromkeys(names))
+                self._inl[f.name] = g
+            else:
+                f.inlined_from = []
+                self._inl[f.name] = f
+        return self._inl[f.name]
 
     def fn(self, name):
         return self.fns.get(name)
@@ -42,7 +72,7 @@ class Program:
         rx = re.compile(pattern)
         return [f for k, f in self.fns.items() if rx.search(k)]
 
-    def one(self, name, follow=True):
+    def one(self, name, follow=True, inline=True):
         """The function anchored by `name`. With follow=True a plain wrapper (no branches, result = one crate function called
         with the wrapper's own parameters in order, plus constants) is replaced by the function it delegates to, so that a
         body moved behind `fn f(x) { self.f_at(x, 0) }` is still the body that gets analysed."""
@@ -53,18 +83,20 @@ class Program:
         if follow:
             from . import analyses
             try:
-                return analyses.delegate_target(self, f)
+                f = analyses.delegate_target(self, f)
             except Exception:
-                return f
+                pass
+            return self.inlined(f) if inline else f
         return f
 
     def closures_of(self, fn, recursive=True):
         out = []
-        pref = fn.name + "::{closure#"
-        for k, f in self.fns.items():
-            if k.startswith(pref):
-                if recursive or k.count("{closure#") == fn.name.count("{closure#") + 1:
-                    out.append(f)
+        for base in [fn.name] + list(getattr(fn, "inlined_from", None) or []):
+            pref = base + "::{closure#"
+            for k, f in self.fns.items():
+                if k.startswith(pref):
+                    if recursive or k.count("{closure#") == base.count("{closure#") + 1:
+                        out.append(f)
         return out
 
     def has_impl(self, self_ty, trait, derived=None):
@@ -216,6 +248,7 @@ class Fn:
         self._dom = None
         self._pdom = None
         self._symcache = {}
+        self.inlined_from = None
 
     def __repr__(self):
         return "Fn(%s)" % self.name
